@@ -48,6 +48,8 @@ def cases(tier, seed):
                 for k in ('lu', 'det', 'eigh', 'qr', 'branches'):
                     out.append({'kind': 'structure', 'seed': case_seed('C11', seed, k, D, P, rep), 'params': {'what': k, 'D': D, 'P': P}})
     for prog in progs.cat():
+        if 'fancy' in prog.tags:
+            continue
         for rep in range(1 if tier == 'quick' else 3):
             out.append({'kind': 'program', 'seed': case_seed('C11', seed, prog.name, rep), 'params': {'prog': prog.name, 'P': 2 + rep % 2, 'D': [2, 1, 3][rep % 3]}})
     for i in range(80 if tier == 'quick' else 1500):
